@@ -58,6 +58,10 @@ func (p param) coreValue() M {
 	switch {
 	case p.C.Shape == "prim" && p.Ty == "int":
 		return M{"t": "int", "n": float64(5)}
+	case p.C.Shape == "prim" && p.Ty == "num":
+		return M{"t": "num", "x": "1.5"}
+	case p.C.Shape == "prim" && p.Ty == "dt":
+		return M{"t": "time", "x": "2021-06-07T08:09:10Z"}
 	case p.C.Shape == "prim":
 		return strOf("k")
 	case p.C.Shape == "arr":
@@ -70,6 +74,10 @@ func (p param) schema() M {
 	switch {
 	case p.C.Shape == "prim" && p.Ty == "int":
 		return M{"type": "integer"}
+	case p.C.Shape == "prim" && p.Ty == "num":
+		return M{"type": "number"}
+	case p.C.Shape == "prim" && p.Ty == "dt":
+		return M{"type": "string", "format": "date-time"}
 	case p.C.Shape == "prim":
 		s := M{"type": "string"}
 		if p.group == "dflt" {
@@ -323,8 +331,8 @@ func Prepare(r *core.Run, extra, race bool) (*Prepared, error) {
 	paths["/resp"] = M{"get": M{"operationId": "resp", "responses": M{
 		"200":     M{"description": "ok", "headers": M{"X-R": M{"schema": M{"type": "string"}}}, "content": jsonOf("R200")},
 		"201":     M{"description": "created"},
-		"4XX":     M{"description": "client error", "content": jsonOf("E4")},
-		"default": M{"description": "error", "content": jsonOf("ED")}}}}
+		"4XX":     M{"description": "client error", "headers": M{"X-E": M{"schema": M{"type": "string"}}}, "content": jsonOf("E4")},
+		"default": M{"description": "error", "headers": M{"X-E": M{"schema": M{"type": "string"}}}, "content": jsonOf("ED")}}}}
 	if extra {
 		paths["/vbody"] = M{"post": M{"operationId": "vbody", "requestBody": M{"required": true, "content": jsonOf("VBody")}, "responses": M{"200": M{"description": "ok", "content": jsonOf("VBody")}}}}
 		bin := M{"application/octet-stream": M{"schema": M{"type": "string", "format": "binary"}}}
@@ -413,9 +421,9 @@ func Prepare(r *core.Run, extra, race bool) (*Prepared, error) {
 		case "created201":
 			d = dresp{"RespCreated", M{"t": "objn", "m": []any{}}}
 		case "pat4XX":
-			d = dresp{"E4StatusCode", M{"t": "objn", "m": []any{[]any{"StatusCode", M{"t": "int", "n": rv["k"]}}, []any{"Response", msgOf("m4")}}}}
+			d = dresp{"E4StatusCodeWithHeaders", M{"t": "objn", "m": []any{[]any{"StatusCode", M{"t": "int", "n": rv["k"]}}, []any{"XE", rv["hdr"]}, []any{"Response", msgOf("m4")}}}}
 		default:
-			d = dresp{"EDStatusCode", M{"t": "objn", "m": []any{[]any{"StatusCode", M{"t": "int", "n": rv["k"]}}, []any{"Response", msgOf("md")}}}}
+			d = dresp{"EDStatusCodeWithHeaders", M{"t": "objn", "m": []any{[]any{"StatusCode", M{"t": "int", "n": rv["k"]}}, []any{"XE", rv["hdr"]}, []any{"Response", msgOf("md")}}}}
 		}
 		calls = append(calls, dcall{Method: "Resp", Keys: [][]string{}, Resp: &d})
 		metas = append(metas, meta{kind: "resp", vary: -1, resp: rv})
@@ -478,7 +486,7 @@ func Check(r *core.Run) error {
 	// ---- observation lines ----------------------------------------------------------------
 	var lines [][]byte
 	var desc []string
-	variantOf := map[string]string{"*api.R200Headers": "ok200", "*api.RespCreated": "created201", "*api.E4StatusCode": "pat4XX", "*api.EDStatusCode": "default"}
+	variantOf := map[string]string{"*api.R200Headers": "ok200", "*api.RespCreated": "created201", "*api.E4StatusCodeWithHeaders": "pat4XX", "*api.EDStatusCodeWithHeaders": "default"}
 	for i, mt := range metas {
 		res := results[i]
 		var line M
@@ -543,7 +551,7 @@ func Check(r *core.Run) error {
 					switch kv[0] {
 					case "StatusCode":
 						k2 = toF(kv[1].(M)["n"])
-					case "XR":
+					case "XR", "XE":
 						payload2["hdr"] = kv[1]
 					case "Response":
 						for _, mm := range kv[1].(M)["m"].([]any) {
@@ -622,6 +630,8 @@ func show(v M) string {
 		return fmt.Sprintf("%q", bytesToString(v))
 	case "int":
 		return fmt.Sprint(v["n"])
+	case "num", "time":
+		return fmt.Sprint(v["x"])
 	case "arr":
 		var xs []string
 		for _, x := range v["v"].([]any) {
